@@ -66,14 +66,15 @@ class HangAlarm(BaseException):
 # ----------------------------------------------------------------------------------- scenario sources
 def scenario_source(kind: str, inherit: bool, docA: str, docB: str) -> Tuple[str, Dict[str, str]]:
     """A module holding A, B and the bystander X. Returns (source, names of A / B / X)."""
-    fine = '"""Fine docstring."""'
+    fine = '"""Fine docstring of `other`."""'
     a, b = repr(docA), repr(docB)
     if kind == "module":
         src = f"{a}\nv = 1\ndef fb(x):\n    {b}\ndef other():\n    {fine}\n"
         names = {"A": "m", "B": "m.fb", "V": "m.v"}
     elif kind in ("class", "cls"):
-        src = f"class K:\n    {a}\n    v = 1\ndef fb(x):\n    {b}\ndef other():\n    {fine}\n"
-        names = {"A": "m.K", "B": "m.fb", "V": "m.K.v"}
+        src = (f"class K:\n    {a}\n    v = 1\n    w = 2\n    def meth(self):\n        {fine}\n"
+               f"def fb(x):\n    {b}\ndef other():\n    {fine}\n")
+        names = {"A": "m.K", "B": "m.fb", "V": "m.K.v", "W": "m.K.w"}
     elif kind in ("function", "func") and not inherit:
         src = f"def fa(x):\n    {a}\ndef fb(x):\n    {b}\ndef other():\n    {fine}\n"
         names = {"A": "m.fa", "B": "m.fb"}
@@ -132,13 +133,21 @@ def run_scenario(sc: Dict[str, Any]) -> Dict[str, Any]:
         tree = ast.parse(src)
     except (SyntaxError, ValueError) as e:
         return {"skip": f"source not parsable: {e}"}
-    clean = {"A": inspect.cleandoc(docA), "B": inspect.cleandoc(docB)}
+    def encodable(t: str) -> str:                 # what pydoctor shows for a lone surrogate (astutils.encodable_text)
+        try:
+            t.encode("utf-8")
+            return t
+        except UnicodeEncodeError:
+            return t.encode("utf-8", "backslashreplace").decode("utf-8")
+    raw = {"A": inspect.cleandoc(docA), "B": inspect.cleandoc(docB)}
+    clean = {o: encodable(raw[o]) for o in raw}
     if not clean["A"] or (not inherit and not clean["B"]) or (not inherit and clean["A"] == clean["B"]):
         return {"skip": "empty or identical docstrings"}
     inject: Optional[Dict[str, Dict[str, Any]]] = sc.get("faults")
-    by_text = {clean["A"]: "A"}
+    by_text = {clean["A"]: "A", raw["A"]: "A"}     # the parser may be handed the text before or after the surrogates are escaped
     if not inherit:
         by_text[clean["B"]] = "B"
+        by_text[raw["B"]] = "B"
     # what the wrappers saw, per source docstring
     seen = {o: {"parse": None, "n": 0, "tostan": "ok", "summary": "ok", "toc": "none", "field": "ok", "node": "ok"} for o in OBJS}
     last_call = {"lost": False}
@@ -414,7 +423,7 @@ def run_scenario(sc: Dict[str, Any]) -> Dict[str, Any]:
         except (Exception, HangAlarm) as e:
             # extract_fields (module / class docstrings are parsed while the module is built) let something escape
             blank = {"pd": {o: "none" for o in OBJS}, "ps": {o: "none" for o in OBJS}, "perr": {o: False for o in OBJS},
-                     "nrep": {o: 0 for o in OBJS}, "pz": {o: False for o in OBJS}}
+                     "nrep": {o: 0 for o in OBJS}, "pz": {o: False for o in OBJS}, "lk": {o: "home" for o in OBJS}}
             F0 = {o: (dict(sc["declared"][o]) if "declared" in sc else dict(inject[o]) if inject else dict(NOFAULT)) for o in OBJS}
             return {"F": F0, "inherit": inherit, "kindA": model_kind(kind), "vdoc": False, "aux": [], "frame_ok": True, "xhtml": None, "reports": [],
                     "names": names, "seen": seen,
@@ -423,13 +432,15 @@ def run_scenario(sc: Dict[str, Any]) -> Dict[str, Any]:
         obs = {o: system.allobjects[names[o]] for o in ("A", "B", "X")}
         obs["V"] = system.allobjects.get(names["V"]) if "V" in names else None
         vdoc = obs["V"] is not None and isinstance(obs["V"].parsed_docstring, Proxy)
-        if obs["A"].docstring != clean["A"] or (not inherit and obs["B"].docstring != clean["B"]):
+        if obs["A"].docstring not in (clean["A"], raw["A"]) or (not inherit and obs["B"].docstring not in (clean["B"], raw["B"])):
             return {"skip": "docstring changed on the way through the builder"}
 
         def project() -> Dict[str, Any]:
-            st: Dict[str, Any] = {"pd": {}, "ps": {}, "perr": {}, "nrep": {}, "pz": {}}
+            st: Dict[str, Any] = {"pd": {}, "ps": {}, "perr": {}, "nrep": {}, "pz": {}, "lk": {}}
             for o in OBJS:
                 ob = obs[o]
+                lnk = getattr(ob, "_linker", None) if ob is not None else None
+                st["lk"][o] = "home" if lnk is None or (not lnk._context_switched and lnk.reporting_obj is ob) else "away"
                 if ob is None:
                     st["pd"][o], st["pz"][o], st["ps"][o], st["perr"][o], st["nrep"][o] = "none", False, "none", False, 0
                     continue
@@ -512,6 +523,17 @@ def run_scenario(sc: Dict[str, Any]) -> Dict[str, Any]:
             except (Exception, HangAlarm) as e:
                 aux.append({"call": "type2stan", "o": "V", "r": "timeout" if isinstance(e, HangAlarm) else "escaped",
                             "exc": f"{type(e).__name__}: {e}"[:200]})
+        # a SIBLING of V (second attribute documented by a field of A: same source, same linker) renders as without faults
+        whtml = None
+        wobj = system.allobjects.get(names["W"]) if "W" in names else None
+        if wobj is not None and wobj.parsed_docstring is not None and not any(e["r"] == "timeout" for e in events):
+            wbuf = io.StringIO()
+            try:
+                with contextlib.redirect_stdout(wbuf), contextlib.redirect_stderr(sink), _Alarm(CALL_TIMEOUT):
+                    whtml = flatten(epydoc2stan.format_docstring(wobj))
+                whtml += "\n#reports: %d" % sum(1 for l in wbuf.getvalue().splitlines() if "Cannot find link target" in l)
+            except (Exception, HangAlarm) as e:
+                whtml = "escaped: %s" % type(e).__name__
         # the bystander still renders as in a scenario without any fault
         with contextlib.redirect_stdout(sink), contextlib.redirect_stderr(sink):
             xhtml = flatten(epydoc2stan.format_docstring(obs["X"])) + flatten(epydoc2stan.format_summary(obs["X"]))
@@ -540,7 +562,7 @@ def run_scenario(sc: Dict[str, Any]) -> Dict[str, Any]:
                 so = text_of(o, inherit)
                 if seen[so]["node"] != "once":
                     e["st"]["pz"][o] = False
-        out = {"F": F, "inherit": inherit, "kindA": model_kind(kind), "vdoc": vdoc, "aux": aux, "st0": st0, "ev": events, "frame_ok": frame_ok, "xhtml": xhtml,
+        out = {"F": F, "inherit": inherit, "kindA": model_kind(kind), "vdoc": vdoc, "aux": aux, "st0": st0, "ev": events, "frame_ok": frame_ok, "xhtml": xhtml, "whtml": whtml,
                "reports": [[fn, n, ok] for (fn, n, ok) in reports], "names": names, "seen": seen,
                "built_parse": system.allobjects[names["A"]].parsed_docstring is not None and len(events) == 0}
     finally:
@@ -606,6 +628,10 @@ def judge(tr: Dict[str, Any]) -> List[str]:
                 bad.append("OneReport")
     if frame_offences(tr):
         bad.append("Frame")
+    if any(v != "home" for e in tr["ev"] if e["r"] not in ("escaped", "timeout") for v in e["st"].get("lk", {}).values()):
+        bad.append("LinkerRestored")
+    if not tr.get("w_same", True):
+        bad.append("Frame")              # the sibling attribute does not render (links, reports) as in a scenario without faults
     for a in tr.get("aux", []):
         if a["r"] != "ok":
             bad.append("AlwaysResult" if a["r"] == "escaped" else "Terminates")
@@ -679,6 +705,12 @@ PLAIN = {
 }
 
 
+# the field that documents the sibling attribute w: a link to a member of the class (relative to the class page) and an
+# unresolvable link (reported); both depend on the state of the linker of the class
+W_FIELD = {"epytext": "@ivar w: See L{meth} and L{nosuch.thing}.\n"}
+W_FIELD.update({f: ":ivar w: See `meth` and `nosuch.thing`.\n" for f in ("restructuredtext", "google", "numpy")})
+
+
 def inj_scenario(rec: Dict[str, Any], fmt: str, pt: bool) -> Dict[str, Any]:
     """The real scenario that realises one enumerated behaviour of Docstring.tla."""
     F = rec["F"]
@@ -689,10 +721,11 @@ def inj_scenario(rec: Dict[str, Any], fmt: str, pt: bool) -> Dict[str, Any]:
         return base[fmt].replace("Summary", "Summary of %s" % o, 1)
     docA = doc("A")
     if rec["kindA"] == "cls" and fmt != "plaintext":      # the field that documents the attribute v
-        docA = docA.rstrip("\n") + ("\n@ivar v: The I{v} attribute.\n" if fmt == "epytext" else "\n:ivar v: The *v* attribute.\n")
+        docA = docA.rstrip("\n") + ("\n@ivar v: The I{v} attribute.\n" if fmt == "epytext" else "\n:ivar v: The *v* attribute.\n") + W_FIELD[fmt]
     kind = "class" if rec["kindA"] == "cls" else ("method" if rec["inherit"] else "function")
     return {"fmt": fmt, "pt": pt, "kind": kind, "inherit": rec["inherit"], "docA": docA, "docB": doc("B"),
-            "faults": inject_for(F), "declared": F, "order": [[x["o"], x["op"]] for x in rec["res"]]}
+            "faults": inject_for(F), "declared": F, "order": [[x["o"], x["op"]] for x in rec["res"]],
+            "wfield": rec["kindA"] == "cls" and fmt != "plaintext"}
 
 
 def _inj_job(job: Tuple[Dict[str, Any], str, bool]) -> Dict[str, Any]:
@@ -710,7 +743,7 @@ FRAGMENTS = {
     "restructuredtext": ["*", "**", "`", "``", "_", "__", "|", ":param x:", ":type x:", ":returns:", ":rtype:", ":ivar v:", ":var", ".. note::",
                          ".. code::", ".. unknown::", ".. _t:", "t_", "[1]_", ".. [1] x", "Title\n=====\n", "Sub\n---\n", "^^^\n", "::",
                          "+---+\n| a |\n+---+\n", "| line", ".. image:: x", ".. |s| replace:: y", "|s|", ":Parameters:\n  x\n",
-                         ".. include:: /etc/passwd", ".. raw:: html\n\n  <b>", ":role:`x`", "`a <b>`_", ".. python::\n\n  x=1", ">>> x", "- ", "1. "],
+                         ".. default-role:: emphasis\n\n", ".. VersionAdded:: 1\n", ".. versionadded:: 1\n", ".. include:: /etc/passwd", ".. raw:: html\n\n  <b>", ":role:`x`", "`a <b>`_", ".. python::\n\n  x=1", ">>> x", "- ", "1. "],
     "google": ["Args:", "Returns:", "Raises:", "Yields:", "Note:", "Example::", "Attributes:", "    x (int): d", "    x: d", "Todo:", "Keyword Args:",
                "See Also:", "*", "``", "`", ":param x:", "Title\n=====\n", "    ", ".. note::"],
     "numpy": ["Parameters\n----------\n", "Returns\n-------\n", "Raises\n------\n", "x : int", "x : {'a', 'b'}, optional", "    desc", "See Also\n--------\n",
@@ -718,7 +751,7 @@ FRAGMENTS = {
     "plaintext": ["<", ">", "&", "<p>", "&amp;", "\n\n", "word"],
 }
 COMMON = ["\n", "\n\n", " ", "  ", "    ", "word", "a.b.c", "(", ")", "[", "]", "{", "}", "<a>", "&amp;", "&#0;", "<", ">", "&", ":", ";", "..", "...",
-          " -- ", "~", "\\", "\t", "\u00a0", "\x00", "\x0b", "\x0c", "\r", "\u2028", "\x85", "\x1f", "\ufeff", "\u200b", "\U0001f600", "é", "'", '"', "'''", "%s", "{0}"]
+          " -- ", "~", "\\", "\t", "\u00a0", "\ud800", "I{a\u00a0b}", "*a\u00a0b*", "\x00", "\x0b", "\x0c", "\r", "\u2028", "\x85", "\x1f", "\ufeff", "\u200b", "\U0001f600", "é", "'", '"', "'''", "%s", "{0}"]
 
 
 def real_docstrings(limit: int = 400) -> List[str]:
@@ -778,7 +811,9 @@ def gen_docstrings(seed: int, n: int) -> List[Tuple[str, str]]:
                        st.sampled_from([".", " L{x}.", " *y*."])).map(sections)
     # body and type of an attribute documented by a field of its class (@ivar v: .. / @type v: ..), separated by \x1e
     tfrag = st.sampled_from(["int", "str", " or ", "C{int}", "I{str}", "I{a\u00a0b}", "L{x.y}", "`x`", "*a*", "list of ", "(", ")", "[", "{1, 2}", ",", " ",
-                             "\u00a0", "optional", "B{", "}", "'q", "\n    more"])
+                             "\u00a0", "optional", "B{", "}", "'q", "\n    more",
+                             "list of str, the caller's responsibility to release every one of them when it is done with the thing",
+                             'mapping of "unclosed name to the objects that were registered under it before the first call was made'])
     s_ivar = st.tuples(st.lists(frag, min_size=1, max_size=6).map(lambda xs: "".join(xs)),
                        st.lists(tfrag, min_size=1, max_size=5).map(lambda xs: "".join(xs))).map(lambda bt: bt[0] + "\x1e" + bt[1])
     out: List[Tuple[str, str]] = []
@@ -898,18 +933,106 @@ def inject_for(F: Dict[str, Any]) -> Dict[str, Any]:
     return {o: (dict(NOFAULT) if F[o]["node"] == "once" else dict(F[o])) for o in OBJS}
 
 
+JOB_DEADLINE = 45          # seconds for one scenario in a worker process, then the process is KILLED: a loop inside C code
+                           # (a regular expression that backtracks for ever) never lets the alarm's handler run
+
+
+def _worker_loop(fn: Any, conn: Any) -> None:
+    while True:
+        try:
+            job = conn.recv()
+        except EOFError:
+            return
+        if job is None:
+            return
+        try:
+            conn.send(("ok", fn(job)))
+        except BaseException as e:          # our own tooling failed inside the worker: reported as such by the parent
+            conn.send(("err", f"{type(e).__name__}: {e}"))
+
+
 def budgeted_map(fn: Any, jobs: List[Any], nproc: int, hung: Any) -> Tuple[List[Any], bool]:
-    """Pool map in slices; stops once HANG_BUDGET results report an interrupted call (each one costs CALL_TIMEOUT seconds)."""
-    out: List[Any] = []
+    """
+    Map over worker PROCESSES, one job at a time per worker, each job under a hard deadline: a worker that does not answer
+    within JOB_DEADLINE seconds is killed and replaced, its job gets the result {"hung": True}.  Stops handing out jobs once
+    HANG_BUDGET results report an interrupted call or a killed worker (every one of them costs seconds).
+    Returns (results in job order - only for the jobs that were run, cut short?).
+    """
+    import multiprocessing as mp
+    from multiprocessing.connection import wait
+    mpc = mp.get_context("fork")
+    results: Dict[int, Any] = {}
+    workers: List[Dict[str, Any]] = []
+
+    def spawn() -> Dict[str, Any]:
+        parent, child = mpc.Pipe()
+        proc = mpc.Process(target=_worker_loop, args=(fn, child), daemon=True)
+        proc.start()
+        child.close()
+        return {"proc": proc, "conn": parent, "job": None, "since": 0.0}
+
+    nxt = 0
     hangs = 0
-    with ProcessPoolExecutor(max_workers=nproc) as ex:
-        for part in chunks(jobs, nproc * 24):
-            res = list(ex.map(fn, part, chunksize=8))
-            out += res
-            hangs += sum(1 for x in res if hung(x))
+    cut = False
+    try:
+        workers = [spawn() for _ in range(min(nproc, max(1, len(jobs))))]
+        while True:
+            for w in workers:                                        # hand out
+                if w["job"] is None and nxt < len(jobs) and not cut:
+                    w["job"], w["since"] = nxt, time.time()
+                    w["conn"].send(jobs[nxt])
+                    nxt += 1
+            busy = [w for w in workers if w["job"] is not None]
+            if not busy:
+                break
+            ready = wait([w["conn"] for w in busy], timeout=1.0)
+            now = time.time()
+            for w in busy:
+                if w["conn"] in ready:
+                    try:
+                        tag, val = w["conn"].recv()
+                    except (EOFError, OSError):
+                        tag, val = "err", "worker died"
+                    if tag == "err":
+                        raise MachineryError(f"worker failed on job {w['job']}: {val}")
+                    results[w["job"]] = val
+                    if hung(val):
+                        hangs += 1
+                    w["job"] = None
+                elif now - w["since"] > JOB_DEADLINE:                 # stuck where no signal handler can run: kill it
+                    w["proc"].kill()
+                    w["proc"].join(5)
+                    w["conn"].close()
+                    results[w["job"]] = {"hung": True, "job": jobs[w["job"]]}
+                    hangs += 1
+                    workers[workers.index(w)] = spawn()
             if hangs >= HANG_BUDGET:
-                return out, True
-    return out, False
+                cut = True
+    finally:
+        for w in workers:
+            try:
+                if w["job"] is None:
+                    w["conn"].send(None)
+                else:
+                    w["proc"].kill()
+                w["conn"].close()
+            except Exception:
+                pass
+        for w in workers:
+            w["proc"].join(5)
+            if w["proc"].is_alive():
+                w["proc"].kill()
+    return [results[k] for k in sorted(results)], cut
+
+
+def hung_trace(job: Dict[str, Any]) -> Dict[str, Any]:
+    """The trace of a scenario whose worker had to be killed: one call that never returned."""
+    blank = {"pd": {o: "none" for o in OBJS}, "ps": {o: "none" for o in OBJS}, "perr": {o: False for o in OBJS},
+             "nrep": {o: 0 for o in OBJS}, "pz": {o: False for o in OBJS}, "lk": {o: "home" for o in OBJS}}
+    return {"F": {o: dict(NOFAULT) for o in OBJS}, "inherit": job.get("inherit", False), "kindA": model_kind(job.get("kind", "function")),
+            "vdoc": False, "aux": [], "st0": blank, "frame_ok": True, "xhtml": None, "reports": [], "names": {}, "seen": {},
+            "ev": [{"o": "A", "op": "?", "r": "timeout", "st": blank, "full": False,
+                    "exc": "the worker process did not answer within %d s and was killed" % JOB_DEADLINE}], "sc": job}
 
 
 # ------------------------------------------------------------------------------------------------ check
@@ -923,6 +1046,8 @@ def run(ctx: Ctx) -> int:
     def account(tr: Dict[str, Any], origin: str, baseline_x: Dict[str, str]) -> None:
         """Verdict on one real execution."""
         tr["x_same"] = tr["xhtml"] is None or tr["xhtml"] == baseline_x[tr["sc"]["fmt"]]
+        if tr["sc"].get("wfield") and tr.get("whtml") is not None:
+            tr["w_same"] = tr["whtml"] == baseline_w[tr["sc"]["fmt"]]
         bad = judge(tr)
         if bad:
             sc = tr["sc"]
@@ -943,10 +1068,17 @@ def run(ctx: Ctx) -> int:
 
     # baseline rendering of the bystander per docformat (no faults anywhere)
     baseline_x: Dict[str, str] = {}
+    baseline_w: Dict[str, str] = {}
     for fmt in FMTS:
         t = run_scenario({"fmt": fmt, "pt": False, "kind": "function", "inherit": False, "docA": "Doc of A.", "docB": "Doc of B.",
                           "faults": None, "order": []})
         baseline_x[fmt] = t["xhtml"]
+        if fmt in W_FIELD:
+            tw = run_scenario({"fmt": fmt, "pt": False, "kind": "class", "inherit": False, "docA": "Doc of A.\n\n" + W_FIELD[fmt],
+                               "docB": "Doc of B.", "faults": None, "order": []})
+            baseline_w[fmt] = tw["whtml"]
+            if not tw["whtml"] or "#reports: 1" not in tw["whtml"] or 'href="#meth"' not in tw["whtml"]:
+                raise MachineryError(f"baseline of the sibling attribute is not what the harness expects: {tw['whtml']!r}")
 
     # ================================================================= spec -> code : every fault combination, injected
     r = ctx.tlc("Docstring", cfg_enum("Bfixed", "tiny" if ctx.quick else "small", "{1}" if ctx.quick else "{1, 2}"),
@@ -995,8 +1127,9 @@ def run(ctx: Ctx) -> int:
         if any(rec["F"][o]["node"] == "once" for o in OBJS):
             fmt = "epytext"                              # the deviation lives in ParsedEpytextDocstring
         jobs.append((rec, fmt, bool((idx // len(FMTS)) % 2)))
-    with ProcessPoolExecutor(max_workers=nproc) as ex:
-        results = list(ex.map(_inj_job, jobs, chunksize=64))
+    results, cut_inj = budgeted_map(_inj_job, jobs, nproc, lambda t: t.get("hung") or any(e["r"] == "timeout" for e in t.get("ev", [])))
+    if cut_inj or any(t.get("hung") for t in results):
+        raise MachineryError("an injected scenario (well-formed template text) did not return: not a docstring-specific hang")
     mism = 0
     for (rec, fmt, pt), tr in zip(jobs, results):
         if "skip" in tr:
@@ -1024,7 +1157,8 @@ def run(ctx: Ctx) -> int:
     if not srecs:
         raise MachineryError("Slug: TLC emitted no document")
     rng.shuffle(srecs)
-    sres, cut = budgeted_map(_slug_job, srecs, nproc, lambda x: x.get("r") == "timeout" or any(b["r"] == "timeout" for b in x.get("bad_orders", [])))
+    sres, cut = budgeted_map(_slug_job, srecs, nproc, lambda x: x.get("hung") or x.get("r") == "timeout" or any(b["r"] == "timeout" for b in x.get("bad_orders", [])))
+    sres = [{"r": "timeout", "ids": [], "text": slug_doc(x["job"]["doc"])} if x.get("hung") else x for x in sres]
     ctx.extra["slug_phase_cut_short_by_hangs"] = cut
     slug_mism = 0
     for rec, got in zip(srecs, sres):
@@ -1074,13 +1208,24 @@ def run(ctx: Ctx) -> int:
                 body, typ = text.split("\x1e", 1)
                 body = body.replace("\n", "\n    ").strip() or "x"
                 f1, f2 = ("@ivar v: %s", "@type v: %s") if fmt == "epytext" else (":ivar v: %s", ":type v: %s")
-                docA = "Summary of the owner.\n\n" + (f1 % body) + "\n" + (f2 % (typ.strip() or "int")) + "\n"
+                typ = typ.strip() or "int"
+                if fmt == "google" and idx % 2:          # the same attribute through napoleon's own section
+                    docA = "Summary of the owner.\n\nAttributes:\n    v (%s): %s\n" % (typ.replace("\n", " "), body.replace("\n", " "))
+                elif fmt == "numpy" and idx % 2:
+                    docA = "Summary of the owner.\n\nAttributes\n----------\nv : %s\n    %s\n" % (typ.replace("\n", " "), body.replace("\n", " "))
+                else:
+                    docA = "Summary of the owner.\n\n" + (f1 % body) + "\n" + (f2 % typ) + "\n"
+                if kind == "class" and fmt in W_FIELD and not (fmt in ("google", "numpy") and idx % 2):
+                    docA += W_FIELD[fmt]
             order = ops[:] + ([["V", "docstring"], ["V", "summary"]] if kind in ("class", "module") else [])
             rng.shuffle(order)
             fjobs.append({"fmt": fmt, "pt": bool((idx + fi) % 2), "kind": kind, "inherit": kind in ("method", "attribute"),
                           "docA": docA, "docB": "Docstring of B, %s." % ("inherited" if kind in ("method", "attribute") else "own"),
-                          "faults": None, "order": order, "family": fam})
-    fres, cut = budgeted_map(_fuzz_job, fjobs, nproc, lambda t: any(e["r"] == "timeout" for e in t.get("ev", [])))
+                          "faults": None, "order": order, "family": fam,
+                          "wfield": fam == "ivarbody" and kind == "class" and fmt in W_FIELD and not (fmt in ("google", "numpy") and idx % 2)})
+    fres, cut = budgeted_map(_fuzz_job, fjobs, nproc, lambda t: t.get("hung") or any(e["r"] == "timeout" for e in t.get("ev", [])))
+    ctx.extra["fuzz_workers_killed"] = sum(1 for t in fres if t.get("hung"))
+    fres = [hung_trace(t["job"]) if t.get("hung") else t for t in fres]
     ctx.extra["fuzz_phase_cut_short_by_hangs"] = cut
     skipped = 0
     outcome_count: Dict[str, int] = {}
